@@ -294,8 +294,208 @@ def t_elsedrop(src):
     return ast.unparse(tree) + "\n"
 
 
+# ---- T6: insert a no-op statement at the start of every block ----
+
+class _PassIns(ast.NodeTransformer):
+    def generic_visit(self, node):
+        super().generic_visit(node)
+        for field in ("body", "orelse", "finalbody"):
+            v = getattr(node, field, None)
+            if isinstance(v, list) and v and isinstance(v[0], ast.stmt) and not isinstance(node, (ast.Module, ast.ClassDef)):
+                # keep docstrings first
+                i = 1 if (field == "body" and isinstance(node, (ast.FunctionDef, ast.AsyncFunctionDef)) and isinstance(v[0], ast.Expr)
+                          and isinstance(v[0].value, ast.Constant) and isinstance(v[0].value.value, str)) else 0
+                if field == "orelse" and len(v) == 1 and isinstance(v[0], ast.If):
+                    continue  # keep elif chains
+                v.insert(i, ast.Pass())
+        if isinstance(node, ast.Try):
+            for h in node.handlers:
+                h.body.insert(0, ast.Pass())
+        return node
+
+
+class _NoiseIns(_PassIns):
+    pass
+
+
+def t_noise(src):
+    """like passins, but with a pure call statement the normaliser cannot drop (stands for logging / assertions)."""
+    tree = _PassIns().visit(ast.parse(src))
+
+    class R(ast.NodeTransformer):
+        def visit_Pass(self, n):
+            return ast.copy_location(ast.Expr(value=ast.Call(func=ast.Name(id="isinstance", ctx=ast.Load()),
+                                                             args=[ast.Constant(value=0), ast.Name(id="int", ctx=ast.Load())], keywords=[])), n)
+    # only the inserted ones: original `pass` statements are sole statements of their block and are kept by _PassIns as second statements
+    tree = R().visit(tree)
+    ast.fix_missing_locations(tree)
+    return ast.unparse(tree) + "\n"
+
+
+def t_passins(src):
+    tree = _PassIns().visit(ast.parse(src))
+    ast.fix_missing_locations(tree)
+    return ast.unparse(tree) + "\n"
+
+
+# ---- T7: flip comparisons / swap == operands (pure operands only) ----
+
+def _pure(e):
+    return all(isinstance(x, (ast.Name, ast.Attribute, ast.Constant, ast.Subscript, ast.Load, ast.Slice, ast.UnaryOp, ast.USub, ast.Tuple))
+               for x in ast.walk(e))
+
+
+class _CmpFlip(ast.NodeTransformer):
+    FL = {ast.Lt: ast.Gt, ast.Gt: ast.Lt, ast.LtE: ast.GtE, ast.GtE: ast.LtE, ast.Eq: ast.Eq, ast.NotEq: ast.NotEq}
+
+    def visit_Compare(self, n):
+        self.generic_visit(n)
+        if len(n.ops) == 1 and type(n.ops[0]) in self.FL and _pure(n.left) and _pure(n.comparators[0]):
+            return ast.copy_location(ast.Compare(left=n.comparators[0], ops=[self.FL[type(n.ops[0])]()], comparators=[n.left]), n)
+        return n
+
+
+def t_cmpflip(src):
+    tree = _CmpFlip().visit(ast.parse(src))
+    ast.fix_missing_locations(tree)
+    return ast.unparse(tree) + "\n"
+
+
+# ---- T8: inline single-assignment path aliases (x = self.a ... x.f()  ->  self.a.f()) when nothing on the path is rebound ----
+
+_MA = None
+
+
+def _mutable_attrs():
+    """attribute names assigned anywhere outside an __init__ (package-wide): aliases of those are not inlined;
+    also method names (an alias of a bound method is fine to inline, but keep it simple) are allowed."""
+    global _MA
+    if _MA is None:
+        _MA = set()
+        for rel, src in sources().items():
+            tree = ast.parse(src)
+            for fn in ast.walk(tree):
+                if isinstance(fn, (ast.FunctionDef, ast.AsyncFunctionDef)) and fn.name != "__init__":
+                    for x in ast.walk(fn):
+                        if isinstance(x, ast.Attribute) and isinstance(x.ctx, (ast.Store, ast.Del)):
+                            _MA.add(x.attr)
+                        if isinstance(x, ast.AugAssign) and isinstance(x.target, ast.Attribute):
+                            _MA.add(x.target.attr)
+    return _MA
+
+
+class _AliasInline(ast.NodeTransformer):
+    def _func(self, n):
+        self.generic_visit(n)
+        sys.path.insert(0, HERE)
+        from wv import norm
+        al = dict(norm.aliases(n))
+        if not al:
+            return n
+        # names stored more than once, used in nested scopes, or whose path root / attributes are assigned in the function: skip
+        stores = {}
+        attr_stores = set()
+        nested_names = set()
+        for x in ast.walk(n):
+            if isinstance(x, ast.Name) and isinstance(x.ctx, (ast.Store, ast.Del)):
+                stores[x.id] = stores.get(x.id, 0) + 1
+            if isinstance(x, ast.Attribute) and isinstance(x.ctx, (ast.Store, ast.Del)):
+                attr_stores.add(x.attr)
+            if isinstance(x, (ast.FunctionDef, ast.Lambda, ast.ListComp, ast.GeneratorExp, ast.SetComp, ast.DictComp)) and x is not n:
+                for y in ast.walk(x):
+                    if isinstance(y, ast.Name):
+                        nested_names.add(y.id)
+        has_calls_between = any(isinstance(x, (ast.AugAssign,)) for x in ast.walk(n))
+        ok = {}
+        for name, path in al.items():
+            if stores.get(name, 0) != 1 or name in nested_names:
+                continue
+            attrs = [x.attr for x in ast.walk(path) if isinstance(x, ast.Attribute)]
+            roots = [x.id for x in ast.walk(path) if isinstance(x, ast.Name)]
+            if any(a in _mutable_attrs() for a in attrs):
+                continue
+            if any(a in attr_stores for a in attrs) or any(stores.get(r, 0) for r in roots if r != "self"):
+                continue
+            # only a plain top-level statement `name = path` in the function body, before any use
+            idx = [i for i, st in enumerate(n.body) if isinstance(st, ast.Assign) and len(st.targets) == 1
+                   and isinstance(st.targets[0], ast.Name) and st.targets[0].id == name]
+            if len(idx) != 1:
+                continue
+            ok[name] = path
+        if not ok:
+            return n
+        # only inline aliases of depth-1 self attributes that are plain data holders is not decidable; restrict to
+        # aliases whose attribute is never assigned anywhere in the module (approximation checked by the test suite)
+        n.body = [st for st in n.body if not (isinstance(st, ast.Assign) and len(st.targets) == 1 and isinstance(st.targets[0], ast.Name)
+                                              and st.targets[0].id in ok)]
+        if not n.body:
+            n.body = [ast.Pass()]
+        n = norm._Subst(ok).visit(n)
+        return n
+
+    visit_FunctionDef = _func
+
+
+def t_aliasinline(src):
+    tree = _AliasInline().visit(ast.parse(src))
+    ast.fix_missing_locations(tree)
+    return ast.unparse(tree) + "\n"
+
+
+# ---- T9: Python-3 modernisation (what a maintainer dropping py2 would do) ----
+
+class _Py3(ast.NodeTransformer):
+    NAMES = {"xrange": "range", "text_type": "str", "string_type": "str", "bytes_type": "bytes", "long_type": "int", "izip": "zip"}
+
+    def __init__(self, is_compat):
+        self.is_compat = is_compat
+
+    def visit_Name(self, n):
+        if not self.is_compat and isinstance(n.ctx, ast.Load) and n.id in self.NAMES:
+            return ast.copy_location(ast.Name(id=self.NAMES[n.id], ctx=ast.Load()), n)
+        return n
+
+    def visit_Call(self, n):
+        self.generic_visit(n)
+        if self.is_compat:
+            return n
+        if isinstance(n.func, ast.Name) and n.func.id in ("iteritems", "itervalues") and len(n.args) == 1 and not n.keywords:
+            meth = {"iteritems": "items", "itervalues": "values"}[n.func.id]
+            return ast.copy_location(ast.Call(func=ast.Attribute(value=n.args[0], attr=meth, ctx=ast.Load()), args=[], keywords=[]), n)
+        # super(Cls, self).m(...) -> super().m(...)
+        if isinstance(n.func, ast.Name) and n.func.id == "super" and len(n.args) == 2 and isinstance(n.args[1], ast.Name) and n.args[1].id == "self" \
+                and isinstance(n.args[0], ast.Name) and self.cls_stack and self.cls_stack[-1] == n.args[0].id and self.in_method:
+            return ast.copy_location(ast.Call(func=n.func, args=[], keywords=[]), n)
+        return n
+
+    cls_stack = []
+    in_method = False
+
+    def visit_ClassDef(self, n):
+        self.cls_stack = self.cls_stack + [n.name]
+        self.generic_visit(n)
+        self.cls_stack = self.cls_stack[:-1]
+        return n
+
+    def visit_FunctionDef(self, n):
+        old = self.in_method
+        # only direct methods (no nested functions/lambdas/comprehension scopes inside are affected by super() rules: keep simple)
+        self.in_method = bool(self.cls_stack) and not old
+        self.generic_visit(n)
+        self.in_method = old
+        return n
+
+
+def t_py3(src):
+    tree = ast.parse(src)
+    is_compat = "PY3 = True" in src and "xrange = range" in src
+    tree = _Py3(is_compat).visit(tree)
+    ast.fix_missing_locations(tree)
+    return ast.unparse(tree) + "\n"
+
+
 TRANSFORMS = {"unparse": t_unparse, "rename": t_rename, "augassign": t_augassign, "ifswap": t_ifswap,
-              "elsedrop": t_elsedrop}
+              "elsedrop": t_elsedrop, "passins": t_passins, "py3": t_py3, "noise": t_noise, "cmpflip": t_cmpflip, "aliasinline": t_aliasinline}
 
 
 def overlay(name):
@@ -352,6 +552,10 @@ def main():
         res = list(ex.map(findings, jobs))
     base = {p: f for (n, p, f) in res if n is None}
     bad = 0
+    for p, f in base.items():
+        if any(x[0] == "ANALYSIS-ERROR" for x in f):
+            bad += 1
+            print("== %s on the UNTRANSFORMED tree: %s" % (p, [x for x in f if x[0] == "ANALYSIS-ERROR"]))
     for n, p, f in res:
         if n is None:
             continue
